@@ -404,6 +404,19 @@ def label_programs():
     return out
 
 
+def file_form_programs():
+    """the same small programs written the way editors and other systems write files: byte-order mark, CR LF / lone CR
+    line ends, NUL, form feed, with and without a final line break - all of it text the grammar ignores"""
+    from .eng_debug import P65, P66
+    cmds = [P65, '항.', '형..♥', P66, '항..', '형...?♥', '항.']
+    out = []
+    for sep in (' ', '\n', '\r\n', '\r', '\x00', '\x0c', '\ufeff', '\t', '\u2028', '\r\r\n'):
+        for pre in ('', '\ufeff', '\r\n', '\ufeff\r\n'):
+            for post in ('', '\n', '\r\n', '\x00', '\x1a'):
+                out.append(pre + sep.join(cmds) + post)
+    return out
+
+
 STDIN_EXT = ['x', 'x\r\n', '\x00y\n', '\U0001F600\U00010000\n\n']
 
 
@@ -473,7 +486,7 @@ def run_c01(tier):
                 else:
                     tasks.append(('programs', alpha, [a], L - 1, inputs, tier == 'quick' or L <= 3))
     from .eng_optdiff import bigarith_family, labelflow_family
-    labs = label_programs() + labelflow_family() + bigarith_family()
+    labs = label_programs() + labelflow_family() + bigarith_family() + file_form_programs()
     for i in range(0, len(labs), 60):
         tasks.append(('curated-list', labs[i:i + 60]))
     from . import scale
